@@ -1290,8 +1290,9 @@ def run(chk, cases=None):
 # against the implementation's output on the index queries of this run (small tables)
 # ----------------------------------------------------------------------------------------
 IMPORTS_SRC = IMPORTS + "From PV Require C06.SrcRun C06.TieSafe.\n"
-SRC_THEOREMS = ["c06_source_lookup_is_model", "c06_source_lookup_is_tensor_program", "c06_source_method_is_model",
-                "c06_source_lookup_is_katz", "c06_source_built_lookup_is_katz"]
+SRC_THEOREMS = ["c06_source_lookup_is_tensor_program", "c06_source_safe_sound", "c06_source_lookup_is_model",
+                "c06_source_method_is_model", "c06_source_lookup_refines_model", "c06_source_lookup_check_is_check",
+                "c06_source_lookup_is_katz", "c06_source_built_lookup_is_katz_partial"]
 SRC_MAX_V, SRC_MAX_NODES = 16, 400
 
 
